@@ -1234,7 +1234,12 @@ fn main() {
         "outcome equality is by 128-bit fingerprint + length + class of the token-stream / error / panic text".to_string(),
     ];
     let unlisted = reported.len();
-    simcore::write_evidence(&cfg.evidence, PROP, &tier, seed, coverage, assumptions, wall, unlisted);
+    if cmd != "selftest" {
+        // (the determinism self-test explores nothing new: it must not overwrite the evidence)
+        simcore::write_evidence(&cfg.evidence, PROP, &tier, seed, coverage, assumptions, wall, unlisted);
+    } else {
+        let _ = (&coverage, &assumptions);
+    }
 
     for (sig, n) in &known_hit {
         let f = findings.iter().find(|f| &f.signature == sig).unwrap();
